@@ -5,6 +5,7 @@
 mod c03;
 mod c09;
 mod c11;
+mod cli;
 mod corpus;
 mod engine;
 mod gen_filter;
@@ -15,25 +16,8 @@ mod mutate;
 mod rng;
 mod simio;
 
-use engine::{Ctx, Engine, Tier, UnitSpec};
+use engine::{Ctx, Engine};
 use harness::*;
-use std::collections::BTreeMap;
-use std::fs::{File, OpenOptions};
-use std::io::Write;
-use std::os::unix::fs::FileExt;
-use std::path::PathBuf;
-
-fn arg<'a>(args: &'a [String], name: &str) -> Option<&'a str> {
-    args.iter().position(|a| a == name).and_then(|i| args.get(i + 1)).map(|s| s.as_str())
-}
-
-fn ctx_from(args: &[String]) -> Ctx {
-    Ctx {
-        repo: PathBuf::from(arg(args, "--repo").map(|s| s.to_string()).or_else(|| std::env::var("VERIF_REPO").ok()).unwrap_or_else(|| "/repo".into())),
-        tier: if arg(args, "--tier") == Some("thorough") { Tier::Thorough } else { Tier::Quick },
-        seed: arg(args, "--seed").and_then(|s| s.parse().ok()).unwrap_or(20240607),
-    }
-}
 
 fn engine_for(prop: &str, ctx: Ctx) -> Box<dyn Engine> {
     match prop {
@@ -60,176 +44,7 @@ fn run_explicit(case: &Case, ctx: &Ctx) -> Outcome {
     }
 }
 
-fn sample_of(case: &Case, out: &Outcome) -> serde_json::Value {
-    let doc = case.doc_bytes();
-    let shown: String = String::from_utf8_lossy(&doc[..doc.len().min(160)]).into_owned();
-    serde_json::json!({
-        "scenario": case.scenario,
-        "origin": case.origin,
-        "doc_prefix": shown,
-        "doc_len": doc.len(),
-        "read_plan": case.read,
-        "extra": case.extra,
-        "accepted": out.accepted,
-        "steps": out.steps,
-        "violation": out.violation.as_ref().map(|v| v.signature.clone()),
-    })
-}
-
-fn cmd_units(args: &[String]) {
-    let prop = arg(args, "--prop").expect("--prop");
-    let eng = engine_for(prop, ctx_from(args));
-    let units: Vec<serde_json::Value> = eng
-        .units()
-        .iter()
-        .map(|u| serde_json::json!({"id": u.id, "name": u.name, "isolated": u.isolated, "exhaustive": u.exhaustive}))
-        .collect();
-    let (real, stub) = eng.components();
-    println!("{}", serde_json::json!({"units": units, "rule": eng.rule(), "components": {"real": real, "stub": stub}}));
-}
-
-fn cmd_cases(args: &[String]) {
-    let prop = arg(args, "--prop").expect("--prop");
-    let eng = engine_for(prop, ctx_from(args));
-    let unit_id: u64 = arg(args, "--unit").and_then(|s| s.parse().ok()).expect("--unit");
-    let sub: Option<usize> = arg(args, "--sub").and_then(|s| s.parse().ok());
-    let units = eng.units();
-    let unit = units.iter().find(|u| u.id == unit_id).expect("unit id");
-    let out = std::io::stdout();
-    let mut out = out.lock();
-    for (i, c) in eng.cases(unit).enumerate() {
-        if sub.is_none() || sub == Some(i) {
-            let _ = writeln!(out, "{}", serde_json::to_string(&c).unwrap());
-        }
-        if sub.is_some_and(|s| i >= s) {
-            break;
-        }
-    }
-}
-
-fn cmd_run_case(args: &[String]) {
-    let path = args.get(2).expect("case file");
-    let text = std::fs::read_to_string(path).expect("read case file");
-    let v: serde_json::Value = serde_json::from_str(&text).expect("case json");
-    // a replay file wraps the case; a bare case is accepted too
-    let case: Case = if v.get("case").is_some() { serde_json::from_value(v["case"].clone()).expect("case") } else { serde_json::from_value(v).expect("case") };
-    let out = run_explicit(&case, &ctx_from(args));
-    println!(
-        "{}",
-        serde_json::json!({
-            "violation": out.violation,
-            "fingerprint": format!("{:016x}", out.fingerprint),
-            "accepted": out.accepted,
-            "nontrivial": out.nontrivial,
-            "steps": out.steps,
-        })
-    );
-    std::process::exit(if out.violation.is_some() { 1 } else { 0 });
-}
-
-fn cmd_worker(args: &[String]) {
-    let prop = arg(args, "--prop").expect("--prop");
-    let eng = engine_for(prop, ctx_from(args));
-    let shard = arg(args, "--shard").unwrap_or("0/1");
-    let (si, sn) = shard.split_once('/').map(|(a, b)| (a.parse::<u64>().unwrap(), b.parse::<u64>().unwrap())).unwrap();
-    let progress = arg(args, "--progress").map(|p| OpenOptions::new().create(true).write(true).truncate(false).open(p).expect("progress file"));
-    let mut out = OpenOptions::new().create(true).append(true).open(arg(args, "--out").expect("--out")).expect("out file");
-    let mut distinct = arg(args, "--distinct").map(|p| OpenOptions::new().create(true).append(true).open(p).expect("distinct file"));
-    // units already completed by an earlier incarnation of this shard, and cases to skip (they killed it)
-    let done: Vec<u64> = arg(args, "--done").map(|s| s.split(',').filter_map(|x| x.parse().ok()).collect()).unwrap_or_default();
-    let skip: Vec<(u64, u64)> = arg(args, "--skip")
-        .map(|s| s.split(',').filter_map(|x| x.split_once(':').and_then(|(a, b)| Some((a.parse().ok()?, b.parse().ok()?)))).collect())
-        .unwrap_or_default();
-    let only: Option<u64> = arg(args, "--only-unit").and_then(|s| s.parse().ok());
-    let max_viol_per_unit = 25usize;
-    for unit in eng.units() {
-        if unit.isolated || unit.id % sn != si || done.contains(&unit.id) || only.is_some_and(|o| o != unit.id) {
-            continue;
-        }
-        let res = run_unit(eng.as_ref(), &unit, progress.as_ref(), &skip, distinct.as_mut(), max_viol_per_unit);
-        writeln!(out, "{}", serde_json::to_string(&res).unwrap()).expect("write result");
-        out.flush().ok();
-    }
-}
-
-fn run_unit(eng: &dyn Engine, unit: &UnitSpec, progress: Option<&File>, skip: &[(u64, u64)], distinct: Option<&mut File>, max_viol: usize) -> UnitResult {
-    let mut res = UnitResult { unit: unit.id, name: unit.name.clone(), exhaustive: unit.exhaustive, ..Default::default() };
-    let mut probes: BTreeMap<String, u64> = BTreeMap::new();
-    let mut ids: Vec<u8> = Vec::new();
-    let mut fp: u64 = 0xcbf2_9ce4_8422_2325;
-    for (sub, case) in eng.cases(unit).enumerate() {
-        if skip.contains(&(unit.id, sub as u64)) {
-            continue;
-        }
-        if let Some(p) = progress {
-            let mut buf = [0u8; 16];
-            buf[..8].copy_from_slice(&unit.id.to_le_bytes());
-            buf[8..].copy_from_slice(&(sub as u64).to_le_bytes());
-            let _ = p.write_at(&buf, 0);
-        }
-        let out = eng.run(&case);
-        res.cases += 1;
-        res.steps += out.steps;
-        if out.accepted {
-            res.accepted += 1;
-        }
-        if out.nontrivial {
-            res.nontrivial += 1;
-            ids.extend_from_slice(&case.identity().to_le_bytes());
-            if res.samples.len() < 2 && (res.nontrivial == 1 || res.nontrivial == 97) {
-                res.samples.push(sample_of(&case, &out));
-            }
-        }
-        for (name, n) in &out.probes {
-            if *name == "ticks_per_byte_x100" {
-                res.max_ticks_per_byte_x100 = res.max_ticks_per_byte_x100.max(*n);
-            } else {
-                *probes.entry(name.to_string()).or_insert(0) += n;
-            }
-        }
-        fp = rng::mix(&[fp, sub as u64, out.fingerprint]);
-        if let Some(v) = out.violation {
-            res.violations_total += 1;
-            // keep the first few per signature
-            let same = res.violations.iter().filter(|(x, _)| x.signature == v.signature).count();
-            if same < 3 && res.violations.len() < max_viol {
-                res.violations.push((v, case.clone()));
-            }
-        }
-    }
-    res.fingerprint = fp;
-    res.probes = probes;
-    if let Some(d) = distinct {
-        let _ = d.write_all(&ids);
-    }
-    res
-}
-
-fn cmd_merge_distinct(args: &[String]) {
-    let mut all: Vec<u64> = Vec::new();
-    for p in &args[2..] {
-        if let Ok(b) = std::fs::read(p) {
-            all.extend(b.chunks_exact(8).map(|c| u64::from_le_bytes(c.try_into().unwrap())));
-        }
-    }
-    let total = all.len();
-    all.sort_unstable();
-    all.dedup();
-    println!("{}", serde_json::json!({"total": total, "distinct": all.len()}));
-}
 
 fn main() {
-    install_panic_hook();
-    let args: Vec<String> = std::env::args().collect();
-    match args.get(1).map(|s| s.as_str()) {
-        Some("units") => cmd_units(&args),
-        Some("cases") => cmd_cases(&args),
-        Some("run-case") => cmd_run_case(&args),
-        Some("worker") => cmd_worker(&args),
-        Some("merge-distinct") => cmd_merge_distinct(&args),
-        _ => {
-            eprintln!("usage: haysim units|cases|run-case|worker|merge-distinct ...");
-            std::process::exit(2);
-        }
-    }
+    cli::main_with(engine_for, run_explicit);
 }
